@@ -33,7 +33,7 @@ ASSUMPTIONS = ['keys longer than 128 characters (also ones that collide '
 def shards(tier, seed):
     q = tier == 'quick'
     out = [{'name': 't%d' % i, 'what': 'tables',
-            'n': 220 if q else 6000} for i in range(12)]
+            'n': 220 if q else 20000} for i in range(12)]
     for i, g in enumerate(common.split(common.ALL_INDEXES, 4)):
         out.append({'name': 'f%d' % i, 'what': 'frames', 'indexes': g,
                     'per': 12 if q else 400})
